@@ -1,17 +1,15 @@
-"""E7d (ENUM) for C13 / C18 / C19: bounded evaluation of extracted function bodies in the checker's
-own finite domain.
+"""E7d (ENUM) helper: exhaustive case analysis of a small function over a *complete finite option domain*.
 
-Nothing of /repo is imported or executed by Python: the *syntax trees* taken from the index are
-evaluated by the small evaluator below over values that the property module chooses (small
-integers, +-inf, short strings, small dicts, and opaque symbols `Sym` / model objects `Obj`
-whose behaviour is given by a model table of the property).  Only a whitelisted subset of
-Python is understood (straight-line code, if/for/while/try, comprehensions, closures, calls of
-package functions that the index resolves, methods of str/dict/list/set/tuple and a table of
-builtins, which are trusted to behave as documented).  Anything else raises `Unsupported`
-(an AnalysisError, i.e. "undecided", never a violation).
+Used only where the whole input domain of a function is a finite product of option enums and all data
+stays opaque (`Sym`): today `StringGrader.construct_message` over msg_type in ('err','msg',None) x
+config['debug'] in (False, True) with a symbolic message (C18-D4).  The syntax tree taken from the
+index is evaluated case by case by the small evaluator below; nothing of /repo is imported, and no
+concrete strings / numbers are pushed through the analysed code -- symbolic values are only stored,
+passed on and compared by identity.  Only a whitelisted subset of Python is understood; anything else
+raises `Unsupported` (an AnalysisError, i.e. "undecided", never a violation).
 
-Outcome of a run: a value, or `Raised(cls_name, args)` for an exception that escapes, or
-`Budget` when the step bound is exhausted (used to recognise loops that cannot end).
+Outcome of a case: a value, or `Raised(cls_name, args)` for an exception that escapes, or `Budget`
+when the step bound is exhausted.
 """
 import ast
 import numbers
